@@ -37,11 +37,6 @@ package services
 //@   nopanic
 //@   requires s != nil && s.client != nil && req != nil && tables_wf()
 
-//@ func (*subscriberServer).ListSubscriptions(s, ctx, req) (resp, err)
-//@   property C16
-//@   uses tables notifyspec
-//@   nopanic
-//@   requires s != nil && s.client != nil && req != nil && tables_wf()
 
 //@ func (*subscriberServer).DeleteSubscription(s, ctx, req) (resp, err)
 //@   property C16
@@ -85,11 +80,6 @@ package services
 //@   nopanic
 //@   requires s != nil && s.client != nil && req != nil && tables_wf()
 
-//@ func (*subscriberServer).ListSnapshots(s, ctx, req) (resp, err)
-//@   property C16
-//@   uses tables notifyspec
-//@   nopanic
-//@   requires s != nil && s.client != nil && req != nil && tables_wf()
 
 //@ func (*subscriberServer).CreateSnapshot(s, ctx, req) (resp, err)
 //@   property C16
@@ -109,11 +99,6 @@ package services
 //@   nopanic
 //@   requires s != nil && s.client != nil && req != nil && tables_wf()
 
-//@ func (*publisherServer).ListTopics(s, ctx, req) (resp, err)
-//@   property C16
-//@   uses tables notifyspec
-//@   nopanic
-//@   requires s != nil && s.client != nil && req != nil && tables_wf()
 
 //@ func (*publisherServer).CreateTopic(s, ctx, req) (resp, err)
 //@   property C16
@@ -158,17 +143,21 @@ package services
 //@   uses tables backoff
 //@   nopanic
 //@   requires subscription != nil
-//@   ensures result != nil
+//@   ensures result != nil && !allocated(result)
+//@   ensures name: [C12] result.Name == subscription.Name
 //@ func entSnapshotToGrpc(snapshot, topicName) (result)
 //@   property C16
 //@   nopanic
 //@   requires snapshot != nil
-//@   ensures result != nil
+//@   ensures result != nil && !allocated(result)
+//@   ensures name: [C12] result.Name == snapshot.Name
 //@ func entTopicToGrpc(topic) (result)
 //@   property C16
 //@   nopanic
 //@   requires topic != nil
-//@   ensures result != nil
+//@   ensures result != nil && !allocated(result)
+//@   ensures name: [C12] result.Name == topic.Name
+//@   ensures labels: [C17] result.Labels == topic.Labels
 
 // the update-mask loop of UpdateSubscription / UpdateTopic never loses the request
 //@ func (*subscriberServer).UpdateSubscription$1(tx) (err)
@@ -179,3 +168,75 @@ package services
 //@   inline
 //@   loop 1
 //@     invariant req.Topic != nil && req != nil
+
+// C12: a page of ListTopics: every entry is a live resource of exactly the requested project, after the
+// page token; at most the effective page size; a next-page token (the id of the last entry) iff the page is full;
+// a page that is not full contains every such resource.
+//@ func (*publisherServer).ListTopics(s, ctx, req) (resp, err)
+//@   property C16 C12
+//@   uses tables notifyspec
+//@   nopanic
+//@   requires s != nil && s.client != nil && req != nil && tables_wf()
+//@   ensures page_sound: [C12] err == nil ==> resp != nil && (forall k int :: {resp.Topics[k]} 0 <= k && k < len(resp.Topics) ==> resp.Topics[k] != nil &&
+//@             (exists x Id :: topics.exists(x) && topics.deleted_at$null(x) && topics.name(x) == resp.Topics[k].Name &&
+//@                hasPrefix(topics.name(x), concat(req.Project, "/topics/")) && after_token(x, req.PageToken)))
+//@   ensures page_bounded: [C12] err == nil ==> len(resp.Topics) <= page_limit(req.PageSize)
+//@   ensures page_complete: [C12] err == nil && len(resp.Topics) < page_limit(req.PageSize) ==> resp.NextPageToken == "" &&
+//@             (forall x Id :: topics.exists(x) && topics.deleted_at$null(x) && hasPrefix(topics.name(x), concat(req.Project, "/topics/")) && after_token(x, req.PageToken) ==>
+//@                (exists k int :: 0 <= k && k < len(resp.Topics) && resp.Topics[k].Name == topics.name(x)))
+//@   ensures next_token: [C12] err == nil && len(resp.Topics) >= page_limit(req.PageSize) ==>
+//@             (exists x Id :: topics.exists(x) && topics.deleted_at$null(x) && resp.NextPageToken == uuidstr(x) && topics.name(x) == resp.Topics[len(resp.Topics) - 1].Name &&
+//@                (forall y Id :: y > x ==> after_token(y, resp.NextPageToken)) && (forall y Id :: after_token(y, resp.NextPageToken) ==> y > x))
+//@ func (*publisherServer).ListTopics$1(tx) (err)
+//@   inline
+//@   loop 1
+//@     invariant forall k int :: {grpcTopics[k]} {topics[k]} 0 <= k && k <= idx ==> grpcTopics[k] != nil && !allocated(grpcTopics[k]) && grpcTopics[k].Name == topics[k].Name
+//@     invariant len(grpcTopics) == len(topics) && req != nil
+
+// C12: a page of ListSubscriptions: every entry is a live resource of exactly the requested project, after the
+// page token; at most the effective page size; a next-page token (the id of the last entry) iff the page is full;
+// a page that is not full contains every such resource.
+//@ func (*subscriberServer).ListSubscriptions(s, ctx, req) (resp, err)
+//@   property C16 C12
+//@   uses tables notifyspec
+//@   nopanic
+//@   requires s != nil && s.client != nil && req != nil && tables_wf()
+//@   ensures page_sound: [C12] err == nil ==> resp != nil && (forall k int :: {resp.Subscriptions[k]} 0 <= k && k < len(resp.Subscriptions) ==> resp.Subscriptions[k] != nil &&
+//@             (exists x Id :: subscriptions.exists(x) && subscriptions.deleted_at$null(x) && subscriptions.name(x) == resp.Subscriptions[k].Name &&
+//@                hasPrefix(subscriptions.name(x), concat(req.Project, "/subscriptions/")) && after_token(x, req.PageToken)))
+//@   ensures page_bounded: [C12] err == nil ==> len(resp.Subscriptions) <= page_limit(req.PageSize)
+//@   ensures page_complete: [C12] err == nil && len(resp.Subscriptions) < page_limit(req.PageSize) ==> resp.NextPageToken == "" &&
+//@             (forall x Id :: subscriptions.exists(x) && subscriptions.deleted_at$null(x) && hasPrefix(subscriptions.name(x), concat(req.Project, "/subscriptions/")) && after_token(x, req.PageToken) ==>
+//@                (exists k int :: 0 <= k && k < len(resp.Subscriptions) && resp.Subscriptions[k].Name == subscriptions.name(x)))
+//@   ensures next_token: [C12] err == nil && len(resp.Subscriptions) >= page_limit(req.PageSize) ==>
+//@             (exists x Id :: subscriptions.exists(x) && subscriptions.deleted_at$null(x) && resp.NextPageToken == uuidstr(x) && subscriptions.name(x) == resp.Subscriptions[len(resp.Subscriptions) - 1].Name &&
+//@                (forall y Id :: y > x ==> after_token(y, resp.NextPageToken)) && (forall y Id :: after_token(y, resp.NextPageToken) ==> y > x))
+//@ func (*subscriberServer).ListSubscriptions$1(tx) (err)
+//@   inline
+//@   loop 1
+//@     invariant forall k int :: {grpcSubscriptions[k]} {subs[k]} 0 <= k && k <= idx ==> grpcSubscriptions[k] != nil && !allocated(grpcSubscriptions[k]) && grpcSubscriptions[k].Name == subs[k].Name
+//@     invariant len(grpcSubscriptions) == len(subs) && req != nil
+
+// C12: a page of ListSnapshots: every entry is a resource of exactly the requested project, after the
+// page token; at most the effective page size; a next-page token (the id of the last entry) iff the page is full;
+// a page that is not full contains every such resource.
+//@ func (*subscriberServer).ListSnapshots(s, ctx, req) (resp, err)
+//@   property C16 C12
+//@   uses tables notifyspec
+//@   nopanic
+//@   requires s != nil && s.client != nil && req != nil && tables_wf()
+//@   ensures page_sound: [C12] err == nil ==> resp != nil && (forall k int :: {resp.Snapshots[k]} 0 <= k && k < len(resp.Snapshots) ==> resp.Snapshots[k] != nil &&
+//@             (exists x Id :: snapshots.exists(x) && snapshots.name(x) == resp.Snapshots[k].Name &&
+//@                hasPrefix(snapshots.name(x), concat(req.Project, "/snapshots/")) && after_token(x, req.PageToken)))
+//@   ensures page_bounded: [C12] err == nil ==> len(resp.Snapshots) <= page_limit(req.PageSize)
+//@   ensures page_complete: [C12] err == nil && len(resp.Snapshots) < page_limit(req.PageSize) ==> resp.NextPageToken == "" &&
+//@             (forall x Id :: snapshots.exists(x) && hasPrefix(snapshots.name(x), concat(req.Project, "/snapshots/")) && after_token(x, req.PageToken) ==>
+//@                (exists k int :: 0 <= k && k < len(resp.Snapshots) && resp.Snapshots[k].Name == snapshots.name(x)))
+//@   ensures next_token: [C12] err == nil && len(resp.Snapshots) >= page_limit(req.PageSize) ==>
+//@             (exists x Id :: snapshots.exists(x) && resp.NextPageToken == uuidstr(x) && snapshots.name(x) == resp.Snapshots[len(resp.Snapshots) - 1].Name &&
+//@                (forall y Id :: y > x ==> after_token(y, resp.NextPageToken)) && (forall y Id :: after_token(y, resp.NextPageToken) ==> y > x))
+//@ func (*subscriberServer).ListSnapshots$1(tx) (err)
+//@   inline
+//@   loop 1
+//@     invariant forall k int :: {grpcSnapshots[k]} {snaps[k]} 0 <= k && k <= idx ==> grpcSnapshots[k] != nil && !allocated(grpcSnapshots[k]) && grpcSnapshots[k].Name == snaps[k].Name
+//@     invariant len(grpcSnapshots) == len(snaps) && req != nil
